@@ -11,7 +11,7 @@ import numpy as np
 
 from mc.engine import hbfs, par
 from mc.engine.report import Violation
-from mc.engine.seams import Canon, ScriptedRandom, ScriptExhausted, public_snapshot
+from mc.engine.seams import Canon, ScriptedRandom, ScriptExhausted, public_snapshot, new_model
 
 import ECAgent.Core as Core
 
@@ -104,7 +104,7 @@ class Harness:
 
     def fresh(self):
         w = World()
-        w.model = Core.Model(seed=1)
+        w.model = new_model(seed=1)
         w.agents = {}
         for key, comps, tag in self.spec:
             a = Core.Agent(key, w.model) if tag is None else Core.Agent(key, w.model, tag=tag)
@@ -115,7 +115,7 @@ class Harness:
         w.last = None
         w.queries = 0
         # a second model whose environment holds agents with the same ids and components: its answers never change
-        w.m2 = Core.Model(seed=2)
+        w.m2 = new_model(seed=2)
         w.by = []
         for key, comps, tag in self.spec[:3]:
             a = Core.Agent(key, w.m2, tag=1)
@@ -312,7 +312,7 @@ def in_system_case(case):
     environment at the time of the call."""
     from mc.engine.seams import reset_library
     reset_library()
-    m = Core.Model(seed=1)
+    m = new_model(seed=1)
     env = m.environment
     spec = POOLS[case['pool']]
     agents = {}
@@ -373,7 +373,7 @@ def class_churn_case(case):
     keep = []
     n = 0
     for r in range(case['rounds']):
-        m = Core.Model(seed=r)
+        m = new_model(seed=r)
         env = m.environment
         # an early class used only by a throw-away agent, then a class the resident agents carry
         E = type(f'Early{r}', (Core.Component,), {})
@@ -414,7 +414,7 @@ def detached_env_case(case):
     are now - also after components were attached / detached / tags changed following an earlier query."""
     from mc.engine.seams import reset_library
     reset_library()
-    m = Core.Model(seed=1)
+    m = new_model(seed=1)
     if case['how'] == 'second':
         env = Core.Environment(m)
     elif case['how'] == 'replaced':
@@ -451,6 +451,10 @@ def detached_env_case(case):
     return 4 * 12
 
 
+# the cheap legs run once more under the runner's ambient configurations (python -O, other logger levels)
+AMBIENT_LEGS = True
+
+
 def run(ctx):
     extra = [{'leg': 'class_churn', 'rounds': 40}] + [{'leg': 'detached_env', 'how': h} for h in
                                                       ('second', 'replaced', 'modelless')]
@@ -472,6 +476,8 @@ def run(ctx):
             ctx.report(case, v)
             return
     ctx.leg('in_system', pools=len(POOLS))
+    if ctx.small:
+        return
     pools = ['p1', 'p2'] if ctx.tier == 'quick' else list(POOLS)
     from mc.engine import par
     par.pmap(ctx, explore_pool, pools, procs=ctx.procs)
